@@ -22,7 +22,7 @@ PROPERTY = "C03"
 # new values) before announcing the change with Need_Update() - what a user subclass that recycles its buffers does
 OPS = ["assemble", "lagrange", "clearbc", "slots", "values", "kind", "mesh", "renumber", "inplace"]
 SLOT_TABLES = 5
-KINDS = ["real", "real_then_complex", "complex", "complex_then_real"]
+KINDS = ["real", "real_then_complex", "complex", "complex_then_real", "complex64"]  # complex64: single-precision complex element arrays
 MESHES = {
     "tri2": lambda: Z.template_2d("TRI3", 1),
     "mixed2d": lambda: Z.template_2d(("TRI3", "QUAD4"), 2),
@@ -157,9 +157,11 @@ def _probe_class():
                     shape = (g.Ne, n, n) if si < 3 else (g.Ne, n)
                     a = r.normal(size=shape)
                     kind = self.probe_kind
-                    cplx = (kind == "complex") or (kind == "real_then_complex" and gi > 0) or (kind == "complex_then_real" and gi == 0)
+                    cplx = (kind in ("complex", "complex64")) or (kind == "real_then_complex" and gi > 0) or (kind == "complex_then_real" and gi == 0)
                     if cplx:
                         a = a + 1j * r.normal(size=shape)
+                    if kind == "complex64":
+                        a = a.astype(np.complex64)
                     if self.probe_inplace:
                         bk = (g.elemType.name, g.Ne, si, dof_n, bool(cplx))
                         bufs = self.__dict__.setdefault("probe_buffers", {})
